@@ -364,8 +364,47 @@ func evalBooleanInfixExpression(operator string, left, right Object) Object {
 }
 
 func equalObject(left, right Object) bool {
+	if left == nil || right == nil {
+		return left == right
+	}
+
 	if !matchTypes(left.Type(), left, right) {
 		return false
+	}
+
+	switch l := left.(type) {
+	case *BinarySet:
+		// the members are kept in a slice, their order is not part of the value
+		r, ok := right.(*BinarySet)
+
+		return ok && len(l.Value) == len(r.Value) && l.Contains(r)
+	case *List:
+		r, ok := right.(*List)
+		if !ok || len(l.Value) != len(r.Value) {
+			return false
+		}
+
+		for i := range l.Value {
+			if !equalObject(l.Value[i], r.Value[i]) {
+				return false
+			}
+		}
+
+		return true
+	case *Map:
+		r, ok := right.(*Map)
+		if !ok || len(l.Value) != len(r.Value) {
+			return false
+		}
+
+		for k, v := range l.Value {
+			other, ok := r.Value[k]
+			if !ok || !equalObject(v, other) {
+				return false
+			}
+		}
+
+		return true
 	}
 
 	return reflect.DeepEqual(left, right)
